@@ -2,7 +2,7 @@
    ONLY theorem statements; each is closed by [exact] of a lemma of C09/ProofsGen.v or C09/ProofsSeg.v. *)
 From Coq Require Import List ZArith Bool.
 Import ListNotations.
-From Verif.C09 Require Import Model ProofsGen ProofsSeg.
+From Verif.C09 Require Import Model ProofsGen ProofsSeg ProofsMach.
 
 Section C09_GeneratorObject.
 (* values, body states, inner-iterator states, side-effect events: all abstract *)
@@ -61,6 +61,20 @@ Theorem start_abrupt_skips_body : forall n (g : gobj B It),
   (forall v, g_call n g (RReturn v) = ([], g_set_state g GCompleted, ORes v true)) /\
   (forall e, g_call n g (RThrow e) = ([], g_set_state g GCompleted, OThrow e)).
 Proof. exact (ProofsGen.g_start_abrupt tyerr undef bstep istep has_meth). Qed.
+(* 5. An async function is the generator state machine driven by promise reactions.  goja's asyncRunner
+      (start / step / onFulfilled / onRejected, transcribed as ar_run: a bare `generator` resumed with gen.next(x) when
+      the awaited promise is fulfilled with x, with gen.nextThrow(e) when it is rejected with e, the function's own
+      promise resolved / rejected at completion) performs, for EVERY body without yield*, every list of settlements and
+      every fuel, exactly the side effects and steps of the specification's generator object driven by
+      next(undefined), then next(x) / throw(e) per settlement, until it completes.
+      NOT covered by this theorem (correspondence only, and C10's theorems): that each reaction runs as its own job
+      in FIFO order (the round-robin interleaving of concurrent async functions), Await's PromiseResolve / `then`
+      lookup on the awaited value (open finding C09-N8 lives there), and the `curAsyncRunner` bookkeeping. *)
+Theorem async_is_generator_plus_promises :
+  star_free bstep -> forall n b h, no_return h ->
+  @ar_run V B It Ev tyerr bstep b BStart h
+  = until_done (outs (run (s_call (S n)) (@sinit B It b) (RNext undef :: h))).
+Proof. exact (ProofsGen.async_is_generator_plus_promises tyerr undef bstep istep has_meth). Qed.
 End C09_GeneratorObject.
 
 Section C09_Segments.
@@ -99,6 +113,31 @@ Theorem resume_suspend_is_identity :
 Proof. exact ProofsSeg.resume_suspend_is_identity. Qed.
 End C09_Segments.
 
+(* 8. The body language (its core: everything except for-of / yield*, whose inner generators are separate objects).
+      A suspended body is DATA — the locals and an explicit stack of frames (pending operands of partially evaluated
+      expressions, loop counters, pending catch / finally blocks, the completion a running finally block will
+      continue with).  For every core body, every frame stack K realising handlers H, every continuation k realised by
+      K, the machine started on the statement unfolds to the direct (continuation-passing) semantics; in particular at
+      every yield, resuming the saved (locals, frames) with ANY input — a value, a throw, a return — continues exactly
+      as the un-suspended direct evaluation continues with that input (mt_yield inside mtree). *)
+Theorem machine_matches_direct : forall s, coreS s = true ->
+  mtree (mload s) (dS false s env0 gen_handlers (fun r => TDone VUndef r)).
+Proof. exact ProofsMach.machine_matches_direct. Qed.
+
+(* 9. resume_deterministic / locals_survive, as an equation between executable runs: for every core body and EVERY
+      history h of resumptions, the machine — suspending to data at each yield and resuming that data with the next
+      element of h — observes (side-effect log, yielded / returned / thrown value, locals) exactly what the direct
+      evaluation observes when each yield is answered by h's values; fuel only has to be large enough. *)
+Theorem resume_deterministic : forall s h, coreS s = true ->
+  exists n, forall fuel, n <= fuel ->
+    mwalk fuel h (mload s) = Some (twalk h (dS false s env0 gen_handlers (fun r => TDone VUndef r))).
+Proof. exact ProofsMach.resume_deterministic. Qed.
+
+(* 10. the same from any machine state that unfolds to a tree: suspended data resumed later behaves as the tree *)
+Theorem locals_survive : forall h c t, mtree c t ->
+  exists n, forall fuel, n <= fuel -> mwalk fuel h c = Some (twalk h t).
+Proof. exact ProofsMach.mtree_walk. Qed.
+
 Print Assumptions genobj_refines_spec.
 Print Assumptions completed_is_absorbing.
 Print Assumptions completed_is_absorbing_spec.
@@ -108,3 +147,7 @@ Print Assumptions executing_rejects_reentry_spec.
 Print Assumptions start_abrupt_skips_body.
 Print Assumptions suspend_resume_roundtrip.
 Print Assumptions resume_suspend_is_identity.
+Print Assumptions async_is_generator_plus_promises.
+Print Assumptions machine_matches_direct.
+Print Assumptions resume_deterministic.
+Print Assumptions locals_survive.
